@@ -464,7 +464,7 @@ def run(ctx, prj: Project):
             from ..patterns import Unsupported
             try:
                 rule_R6_composition(ctx, prj)
-            except (Unsupported, AnalysisError) as e:
+            except Exception as e:      # the symbolic composition is only a complement: any form it cannot read is skipped
                 ctx.rule("R6", "symbolic composition not applicable to this form of the operators (R7 decides)", floor=0)
                 ctx.info(f"R6 composition skipped: {e}")
         return
